@@ -23,6 +23,35 @@ theorem generated_assign_eq_hand (jobs size rank batch : Nat) (hs : 0 < size) (h
       ((rank : Int) * ((jobs / size : Nat) : Int) + (batch : Int)), ?_⟩
     push_cast; rfl
 
+/-- ... and the first batch end that `__assign_job_indices` leaves behind is exactly
+    `min ((rank+1)·⌊jobs/size⌋) (rank·⌊jobs/size⌋ + batch)`: never beyond the rank's own range, never more than one
+    batch past its start (the last rank's extension to `jobs` is applied to the range only, after this). -/
+theorem generated_assign_first_end (jobs size rank batch : Nat) (hs : 0 < size) (hr : rank < size) :
+    assign_job_indices (jobs : Int) (rank : Int) (size : Int) (batch : Int) =
+      .ok ((rankStart jobs size rank : Nat), (rankEnd jobs size rank : Nat),
+           ((min ((rank + 1) * (jobs / size)) (rank * (jobs / size) + batch) : Nat) : Int)) := by
+  unfold assign_job_indices pyFloorDiv rankStart rankEnd
+  have hsz : (size : Int) ≠ 0 := by omega
+  simp only [bind, Except.bind, pure, Except.pure, hsz, if_false, fquot, ← Int.ofNat_fdiv]
+  generalize jobs / size = q
+  by_cases hl : rank + 1 = size
+  · have hc : (rank : Int) = (size : Int) - 1 := by omega
+    simp only [hc, hl, if_true]
+    subst hl
+    congr 3
+    · push_cast; simp
+    · simp only [Nat.add_mul, Nat.one_mul]
+      push_cast
+      simp only [Int.add_sub_cancel, Int.add_mul, Int.one_mul]
+      omega
+  · have : ¬ ((rank : Int) = (size : Int) - 1) := by omega
+    simp only [this, if_false, hl]
+    congr 3
+    simp only [Nat.add_mul, Nat.one_mul]
+    push_cast
+    simp only [Int.add_mul, Int.one_mul]
+    omega
+
 /-- The generated batch window of `_read_data_chunk` is the hand model's window. -/
 theorem generated_window_eq_hand (start stop batch e : Nat) :
     read_window (start : Int) (stop : Int) (batch : Int) (e : Int) =
